@@ -292,7 +292,7 @@ func c13SameNames(a, b []string) bool {
 // list its own filter call produced. Tools, prompts and resources.
 func H_C13_list_filter_overlap() {
 	vRandConcrete(true)
-	kind := vChoice("registry", 3)  // 0 tools, 1 prompts, 2 resources
+	kind := vChoice("registry", 3)      // 0 tools, 1 prompts, 2 resources
 	other := vChoice("otherRequest", 2) // what the second client sends: 0 the same list, 1 initialize
 	var srv *Server
 	var nested func()
@@ -342,7 +342,9 @@ func H_C13_list_filter_overlap() {
 	}
 	srv = NewServer("srv", "1.0", WithStatelessMode(true), WithPostSSEEnabled(false), WithHTTPContextFunc(ctxFunc),
 		WithToolListFilter(toolFilter), WithPromptListFilter(promptFilter), WithResourceListFilter(resourceFilter))
-	th := func(ctx context.Context, r *CallToolRequest) (*CallToolResult, error) { return NewTextResult("ok"), nil }
+	th := func(ctx context.Context, r *CallToolRequest) (*CallToolResult, error) {
+		return NewTextResult("ok"), nil
+	}
 	rh := func(ctx context.Context, r *ReadResourceRequest) (ResourceContents, error) {
 		return TextResourceContents{URI: r.Params.URI, Text: "t"}, nil
 	}
@@ -379,3 +381,65 @@ func H_C13_list_filter_overlap() {
 }
 
 const c13Init = `{"jsonrpc":"2.0","id":0,"method":"initialize","params":{"protocolVersion":"2025-03-26","clientInfo":{"name":"c","version":"1"},"capabilities":{}}}`
+
+// ---- legacy SSE notification handlers: the context of the POST that carried the notification ----
+
+type c13Gen struct{ n int }
+
+func (g *c13Gen) GenerateSessionID(r *http.Request) string {
+	g.n++
+	return []string{"n1", "n2", "n3"}[g.n-1]
+}
+
+// H_C13_legacy_notification: two sessions opened through the real GET handler with one token each, then
+// one notification POST per session carrying a different token: each notification handler sees the
+// context-function value of its own POST (not of the GET that opened the stream, not of the other session)
+// and its own session.
+func H_C13_legacy_notification() {
+	a, b := c13Tokens()
+	o := &c13Obs{}
+	srv := NewSSEServer("srv", "1.0", WithSSEContextFunc(o.f1), WithSSESessionIDGenerator(&c13Gen{}))
+	var seen []interface{}
+	var seenSess []string
+	srv.RegisterNotificationHandler("notifications/custom", func(ctx context.Context, n *JSONRPCNotification) error {
+		sid := ""
+		if s := ClientSessionFromContext(ctx); s != nil {
+			sid = s.GetID()
+		}
+		seen = append(seen, ctx.Value(c13K1{}))
+		seenSess = append(seenSess, sid)
+		return nil
+	})
+	open := func(tok string) context.CancelFunc {
+		rec := newVerifRecorder()
+		ctx, cancel := context.WithCancel(context.Background())
+		go func() {
+			srv.ServeHTTP(rec, verifRequest("GET", "/sse", nil, "Accept", "text/event-stream", "X-Tok", tok).WithContext(ctx))
+			rec.finished = true
+		}()
+		vQuiesce()
+		return cancel
+	}
+	c1 := open("g1")
+	c2 := open("g2")
+	post := func(sid, tok string) {
+		rec := newVerifRecorder()
+		req := verifRequest("POST", "/message", []byte(`{"jsonrpc":"2.0","method":"notifications/custom","params":{}}`), "Content-Type", "application/json", "X-Tok", tok)
+		req.URL.RawQuery = "sessionId=" + sid
+		srv.ServeHTTP(rec, req)
+		vQuiesce()
+	}
+	post("n1", a)
+	post("n2", b)
+	vAssert("two-notification-handler-runs", len(seen) == 2)
+	if len(seen) == 2 {
+		vAssert("first-notification-own-post-token", seen[0] == a)
+		vAssert("second-notification-own-post-token", seen[1] == b)
+		vAssert("first-notification-own-session", seenSess[0] == "n1")
+		vAssert("second-notification-own-session", seenSess[1] == "n2")
+	}
+	c1()
+	c2()
+	vQuiesce()
+	vReach("end")
+}
